@@ -120,9 +120,9 @@ rng: &mut VRng,
 //@ with
         let lr: f64 = vln(1.0_f64 - vrng_gen_f64(rng));
 //@ rewrite
-((lr / lp) as i32)
+(lr / lp) as i32
 //@ with
-(vcast_skip(lr / lp))
+vcast_skip(lr / lp)
 //@ rewrite
     let mut edges = vec![];
 //@ with
@@ -149,6 +149,9 @@ rng: &mut VRng,
             // [C16.undirected.in_range_no_self_loop_no_repeat]
             undirected_pairs_ok(edges@, num_nodes as int),
             edges@.len() > 0 && v < num_nodes ==> edges@[edges@.len() - 1] == (v, w),
+            // [C16.undirected.walk_starts_before_first_slot]
+            // until a pair has been pushed the walk sits just before slot 0, so the first skip s selects slot s: every slot can be the first one
+            edges@.len() == 0 && v < num_nodes ==> tri_slot(v as int, w as int) == -1,
         decreases num_nodes - v, v - w,
 //@ before while w >= v && v < num_nodes {
         // the skip moved the column forward by at least one slot (saturating at i32::MAX, never wrapping)
@@ -189,9 +192,9 @@ rng: &mut VRng,
 //@ with
         let lr: f64 = vln(1.0_f64 - vrng_gen_f64(rng));
 //@ rewrite
-((lr / lp) as i32)
+(lr / lp) as i32
 //@ with
-(vcast_skip(lr / lp))
+vcast_skip(lr / lp)
 //@ rewrite
     let mut edges = vec![];
 //@ with
@@ -218,6 +221,8 @@ rng: &mut VRng,
             // [C16.directed.in_range_no_self_loop_no_repeat]
             directed_pairs_ok(edges@, num_nodes as int),
             edges@.len() > 0 && v < num_nodes ==> edges@[edges@.len() - 1] == (v, w),
+            // [C16.directed.walk_starts_before_first_slot]
+            edges@.len() == 0 && v < num_nodes ==> v == 0 && w == -1,
         decreases num_nodes - v, num_nodes - w,
 //@ before let lr: f64
         let ghost w_before = w;
